@@ -159,7 +159,7 @@ def assemble(unit_name, specs, tags, view, props_files, workdir, prelude_files=N
     parts.append("\npub broadcast group base_axioms {\n    " + ",\n    ".join(axioms + ["lemma_range_add", "lemma_range_mul", "lemma_range_neg"]) + ",\n}\n")
     parts.append("} // mod prelude\n")
     head = "".join(parts)
-    ex_head = "pub mod extracted {\nuse vstd::prelude::*;\nuse super::prelude::*;\nuse std::collections::HashMap;\nbroadcast use " + ", ".join(["super::prelude::base_axioms", "super::prelude::ring_auto"] + (["super::prelude::pair_sums"] if "pub broadcast group pair_sums" in pre else [])) + ";\n"
+    ex_head = "pub mod extracted {\nuse vstd::prelude::*;\nuse super::prelude::*;\nuse std::collections::HashMap;\nbroadcast use " + ", ".join(["super::prelude::base_axioms", "super::prelude::ring_auto"] + (["super::prelude::pair_sums"] if "pub broadcast group pair_sums" in pre else []) + (["super::prelude::seq_ext"] if "pub broadcast group seq_ext" in pre else [])) + ";\n"
     ex_off = head.count("\n") + ex_head.count("\n")
     ex_text = open(ex_rs).read()
     body = head + ex_head + ex_text + "\n} // mod extracted\n"
